@@ -172,8 +172,8 @@ func c16Run(ctx *Ctx, c c16Case) {
 		}
 		return
 	}
-	// (ii) no arity complaint after acceptance (well-typed operands only)
-	if out.Err != nil && errors.Is(out.Err, impl.ErrWrongArity) && inSpec && c.N <= len(sp.Args) {
+	// (ii) no arity complaint after acceptance, whatever the operands are
+	if out.Err != nil && errors.Is(out.Err, impl.ErrWrongArity) {
 		ctx.Fail(fmt.Sprintf("arity error at evaluation after Compile accepted %s/%d", c.Name, c.N), fmt.Sprintf("%s → %v", src, out.Err))
 		return
 	}
